@@ -17,7 +17,7 @@ from typing import Dict, List, Set, Tuple
 
 from ..loader import AnalysisError, Project
 from ..report import Result
-from ..engines.abseval import Evaluator, Sym, Obj, Unsupported, LoopBound
+from ..engines.abseval import Evaluator, Sym, Obj, Unsupported, LoopBound, AbsRaise, IndexOut
 from . import pairwise
 
 MOD = "corankco.partitioning.ordered_partition"
@@ -88,6 +88,10 @@ class PartitionWorld:
             part = self.w.rt.call_static(self.OP, which, ds, self.scheme)
         except LoopBound:
             return "LOOP", None, self.log
+        except AbsRaise as r:
+            return "RAISE", f"raises {r.exc_name.split('.')[-1]} (line {getattr(r.node, 'lineno', '?')})", {"wired": True}
+        except IndexOut as exc:
+            return "RAISE", f"raises IndexError ({exc})", {"wired": True}
         except Unsupported as exc:
             raise AnalysisError(f"OrderedPartition.{which}: unsupported construct line {getattr(exc.node, 'lineno', '?')}: {exc}")
         groups = [{e.attrs["_value"] for e in g} for g in part.attrs["_partition"]]
